@@ -12,7 +12,7 @@ THIRTEEN = ["bulkhead", "ratelimiter", "circuit", "retry", "timelimiter", "cache
 # name in the op language -> the middleware it is a configuration of
 BASE = {n: n for n in THIRTEEN}
 BASE.update({"timelimiter_nocancel": "timelimiter", "hedge1": "hedge", "hedge_fire": "hedge", "hedge_parallel": "hedge",
-             "circuit_slow": "circuit"})
+             "circuit_slow": "circuit", "bulkhead1": "bulkhead", "bulkhead1w": "bulkhead"})
 VARIANTS = THIRTEEN + ["timelimiter_nocancel", "hedge1", "hedge_fire", "hedge_parallel"]
 HEDGES_THAT_REPOLL = ("hedge", "hedge_fire", "hedge_parallel")
 
@@ -108,12 +108,135 @@ def gen_slow_listener(rng):
         ",".join(layers), rng.choice([0, 0, 2, 4]), rng.randint(1, 7), rng.choice([45, 90])), "ops": ops}
 
 
+def _drain(ops, layers, nerr):
+    """let everything complete: every timer of these configurations is <= 30 ms, except the one-hour hedge delay"""
+    ops.append("settle")
+    rounds = 2 * sum(len(kvs(o).get("inner", "").split(",")) for o in ops if o.startswith("arrive")) + 4
+    hours = nerr + 1 if "hedge" in layers else 0
+    for h in range(hours + 1):
+        for _ in range(rounds if h == 0 else 4):
+            ops.append("adv 25")
+            ops.append("settle")
+        if h < hours:
+            ops.append("adv 3600000")
+            ops.append("settle")
+    ops.append("probe listeners")
+
+
+def _some_stack(rng):
+    r = rng.random()
+    if r < 0.35:
+        return [rng.choice(VARIANTS)]
+    if r < 0.70:
+        return list(rng.choice(DOC_STACKS))
+    return [rng.choice(VARIANTS) for _ in range(rng.randint(2, 4))]
+
+
+def gen_slow_recovery(rng):
+    """the inner instance (`recall=1`: every instance of the inner service) needs `rec` ms after a call before it reports
+    ready again (time-based `Pending`, with a timer wake-up), aimed at re-issued attempts: retry / reconnect back off for 5 ms, so with rec > 5 the attempt has to wait
+    for readiness AFTER its back-off; time moves in steps of 5 ms so that the caller is polled in that window"""
+    if rng.random() < 0.5:
+        layers = [rng.choice(QUIET) for _ in range(rng.randint(0, 2))] + [rng.choice(["retry", "retry", "reconnect"])]
+        layers += [rng.choice(QUIET) for _ in range(rng.randint(0, 1))]
+    else:
+        layers = list(rng.choice([d for d in DOC_STACKS if "retry" in d or "reconnect" in d]))
+    inner = rng.choice(["strict", "strict", "climit"])
+    header = "stack layers=%s inner=%s rec=%d" % (",".join(layers), inner, rng.choice([4, 8, 8, 20, 30]))
+    if rng.random() < 0.6:
+        # the whole service recovers, fresh clones included: every layer between the retry and the inner service leaves a
+        # fresh clone behind with each call, which a per-instance recovery never meets
+        header += " recall=1"
+    if inner == "climit":
+        header += " cl=%d" % rng.choice([1, 2, 16])
+    header += " lp=%d" % rng.choice([0, 0, 3])
+    ops = []
+    nerr = 0
+    for c in range(1, rng.randint(2, 3)):
+        steps = ["%d:err1" % rng.choice([0, 0, 5])] + _script(rng)
+        nerr += sum(1 for x in steps if "err" in x)
+        ops.append("arrive %d tag=%d inner=%s%s" % (c, 10 + c, ",".join(steps), rng.choice(["", "", " how=held"])))
+        ops.append("settle")
+        for _ in range(rng.randint(2, 8)):
+            ops.append("adv 5")
+            ops.append("settle")
+    _drain(ops, layers, nerr)
+    return {"header": header, "ops": ops}
+
+
+def gen_late_first_poll(rng):
+    """the call future is created and then left un-polled for a long time (a batch of futures awaited one after the
+    other, a future stored and driven later): nothing a layer does may be counted from `call()` — the wrapped call
+    starts at the first poll, and so does every timer that guards it (the time limiter's one-hour timeout, the quiet
+    hedge's one-hour delay). Requests run one after the other so that nothing else is in flight during the pause."""
+    layers = _some_stack(rng)
+    if rng.random() < 0.5 and not any(BASE[l] == "timelimiter" for l in layers):
+        layers.insert(rng.randint(0, len(layers)), rng.choice(["timelimiter", "timelimiter_nocancel"]))
+    inner = rng.choice(["strict", "strict", "climit"])
+    header = "stack layers=%s inner=%s" % (",".join(layers), inner)
+    if inner == "climit":
+        header += " cl=%d" % rng.choice([1, 2, 16])
+    header += " lp=%d" % rng.choice([0, 0, 5])
+    ops = []
+    nerr = 0
+    for c in range(1, rng.randint(2, 3)):
+        steps = _script(rng, rng.choice(["ok", "ok", "ok", "err2"]))
+        nerr += sum(1 for x in steps if "err" in x)
+        ops.append("arrive %d tag=%d inner=%s" % (c, 30 + c, ",".join(steps)))
+        # Time first passes in small steps, as real time does (the caller is still not polled): an executor layer starts
+        # the call eagerly on its runtime, and one jump over both a 20 ms latency and the one-hour timeout would let
+        # the runtime pick the order in which the two expired timers' tasks run — an artefact of the virtual clock.
+        ops += ["adv 25"] * (2 * len(steps) + 2)
+        ops.append("adv %d" % rng.choice([3600000, 3600000, 3600000, 7200000, 3599990, 40]))
+        sub = [o for o in ops if o.startswith("arrive %d " % c)]
+        _drain(sub, layers, sum(1 for x in steps if "err" in x))
+        ops += sub[1:]
+    return {"header": header, "ops": ops}
+
+
+# layers that emit completion events (after the wrapped call has returned), as the outermost layer of a probing stack;
+# `bulkhead1` (one slot, full = rejected) is at its limit with every call
+PROBING = ["bulkhead1", "bulkhead1", "bulkhead1", "bulkhead1w", "bulkhead", "circuit", "circuit", "timelimiter",
+           "timelimiter_nocancel", "retry", "retry", "fallback", "hedge1", "hedge_fire"]
+PROBE_FIRST = 900      # probe requests are numbered from here (id and tag)
+
+
+def gen_probing_listener(rng):
+    """a completion listener of the outermost layer that itself calls the service (what a call arriving on another
+    thread while the listener runs would see): the probe made from inside the listener must end like the same probe
+    made right after the step (twin). Requests run one after the other — nothing else is in flight when a request
+    completes, so a one-slot bulkhead on top must admit the probe."""
+    below = [rng.choice(VARIANTS) for _ in range(rng.choice([0, 0, 1, 1, 2, 3]))]
+    layers = [rng.choice(PROBING)] + ["hedge1" if l == "hedge" else l for l in below]
+    inner = rng.choice(["strict", "strict", "climit", "buffer"])
+    header = "stack layers=%s inner=%s" % (",".join(layers), inner)
+    if inner == "climit":
+        header += " cl=%d" % rng.choice([1, 2, 16])
+    header += " lq=%d lqinner=%s lp=%d" % (rng.choice([1, 2, 2, 3]), rng.choice(["0:ok", "0:ok", "5:ok", "0:err2"]),
+                                           rng.choice([0, 0, 2, 7]))
+    ops = []
+    for c in range(1, rng.randint(2, 4)):
+        steps = _script(rng)
+        ops.append("arrive %d tag=%d inner=%s%s" % (c, 40 + c, ",".join(steps), rng.choice(["", "", " how=held"])))
+        ops += ["settle", "manual probes"]
+        for _ in range(2 * len(steps) + 3):
+            ops += ["adv %d" % rng.choice([5, 25, 25]), "settle", "manual probes", "manual probes"]
+    ops += ["probe probes", "probe listeners"]
+    return {"header": header, "ops": ops}
+
+
 def gen(rng, tier):
     r0 = rng.random()
+    if 0.17 <= r0 < 0.24:
+        return gen_probing_listener(rng)
     if r0 < 0.04:
         return gen_cache_same_key(rng)
     if r0 < 0.08:
         return gen_slow_listener(rng)
+    if r0 < 0.12:
+        return gen_slow_recovery(rng)
+    if r0 < 0.17:
+        return gen_late_first_poll(rng)
     r = rng.random()
     doc = False
     if r < 0.30:
@@ -174,19 +297,15 @@ def gen(rng, tier):
         script = "r" * rng.randint(max(0, first_polls - 1), first_polls + 1) + rng.choice(["e", "pe", "pr", "re", "ppr", "rpe"])
     if script:
         header += " ready=" + script
+    if inner != "buffer" and rng.random() < 0.2:
+        # time-based readiness: every instance stays `Pending` for that long after a call (see gen_slow_recovery).
+        # Not behind Buffer: its worker owns ONE instance, so the recovery would delay every queued request and
+        # legitimately trigger the latency-based layers (a firing hedge) for requests whose own call is fast.
+        header += " rec=%d" % rng.choice([3, 8, 8, 20, 30])
+        if rng.random() < 0.4:
+            header += " recall=1"
     header += " lp=%d" % lp
-    # let everything complete: every timer of these configurations is <= 20 ms, except the one-hour hedge delay
-    ops.append("settle")
-    rounds = 2 * sum(len(kvs(o).get("inner", "").split(",")) for o in ops if o.startswith("arrive")) + 4
-    hours = nerr + 1 if "hedge" in layers else 0
-    for h in range(hours + 1):
-        for _ in range(rounds if h == 0 else 4):
-            ops.append("adv 25")
-            ops.append("settle")
-        if h < hours:
-            ops.append("adv 3600000")
-            ops.append("settle")
-    ops.append("probe listeners")
+    _drain(ops, layers, nerr)
     return {"header": header, "ops": ops}
 
 
@@ -378,10 +497,21 @@ def mon_transparent(case, lines, meta):
             k = kvs(l)
             calls.setdefault(k.get("tag"), []).append((w[1], w[2]))
             rq = reqs.get(w[1])
+            if rq is None and w[1].isdigit() and int(w[1]) >= PROBE_FIRST and k.get("tag") == w[1]:
+                continue            # a probe call made by a listener (tag = id); its answer is checked below
             if rq is None:
                 return "line %d: inner call for a request nobody made: %s" % (i, l)
             if k.get("tag") != rq["tag"]:
                 return "line %d: request %s was made with tag %s but reached the inner service with tag %s" % (i, w[1], rq["tag"], k.get("tag"))
+    for l in lines:
+        _, w = tparse(l)
+        if len(w) >= 3 and w[0] == "presult" and w[2].startswith("ok:"):
+            # an ok answer to a listener's probe call is the answer of one of ITS inner calls
+            tag = str(PROBE_FIRST + int(w[1]))
+            m = re.match(r"^ok:(\d+):tag=(\d+)$", w[2])
+            if not m or m.group(2) != tag or m.group(1) not in [k for _, k in calls.get(tag, [])]:
+                return "probe call %s (tag %s) was answered %s, which is not the response of one of its inner calls %s" % (
+                    w[1], tag, w[2], [k for _, k in calls.get(tag, [])])
     for c, rq in reqs.items():
         r = res.get(c)
         mine = calls.get(rq["tag"], [])
@@ -493,6 +623,12 @@ def mon_listeners(case, lines, meta):
                 continue
             return "line %d: request %s is answered %s with panicking listeners (mask %s) and %s without" % (
                 i, w[1], w[2], kvs(case["header"]).get("lp"), w[3] if len(w) > 3 else "?")
+        if w[0] == "presult" and len(w) >= 3:
+            tw = kvs(l).get("twin", "?")
+            if _modulo_serial(w[2]) != _modulo_serial(tw):
+                return ("line %d: probe call %s, made from inside a completion listener of the outermost layer (%s), ends %s; the same call "
+                        "made right after that step ends %s: a call's outcome depends on what a listener does (is something of the finished "
+                        "call still held while its completion listeners run?)" % (i, w[1], layers[0] if layers else "?", w[2], tw))
         if w[0] == "probe" and len(w) >= 3 and w[1] == "listeners":
             counts = w[2].split(",")
             if len(set(counts)) != 1:
@@ -519,6 +655,10 @@ def transitions(case, lines, meta=None):
         tags.append("hedge-over-coalesce-over-reserving-inner")
         if any(c not in res and not rq["dropped"] for c, rq in reqs.items()):
             tags.append("capacity-deadlock-observed")
+    if cfg.get("rec", "0") != "0":
+        tags.append("inner-recovery")
+        if cfg.get("recall") == "1":
+            tags.append("inner-recovery-all-instances")
     if cfg.get("lp", "0") != "0":
         tags.append("listener-panic")
     if cfg.get("lp") == "7":
@@ -548,8 +688,31 @@ def transitions(case, lines, meta=None):
             tags.append("probe")
         elif w[0] == "twin-mismatch":
             tags.append("twin-race-winner-differs")
+        elif w[0] == "pstart":
+            tags.append("listener-probe")
+            tags.append("listener-probe-over-" + BASE.get(layers[0], layers[0]))
+        elif w[0] == "presult" and len(w) >= 3:
+            tags.append("probe-ok" if w[2].startswith("ok:") else "probe-err" if w[2].startswith("err:") else "probe-" + w[2].split(":")[0])
     if maxfl >= 2:
         tags.append("concurrent-inner-calls")
+    # a future left un-polled for (about) the one-hour timeout / hedge delay after `call()`
+    pause, waiting = {}, set()
+    for o in case["ops"]:
+        w = o.split()
+        if w[:1] == ["arrive"] and len(w) > 1:
+            waiting.add(w[1])
+            pause[w[1]] = 0
+        elif w[:1] == ["adv"] and len(w) > 1:
+            for c in waiting:
+                pause[c] += int(w[1])
+        elif w[:1] == ["settle"]:
+            waiting.clear()
+        elif w[:1] == ["poll"] and len(w) > 1:
+            waiting.discard(w[1])
+    if any(v >= 3599990 for v in pause.values()):
+        tags.append("late-first-poll")
+        if any(BASE.get(l) == "timelimiter" for l in layers):
+            tags.append("late-first-poll-timelimiter")
     for c, rq in reqs.items():
         r = res.get(c, "none")
         if rq["how"] == "held":
@@ -574,6 +737,8 @@ def transitions(case, lines, meta=None):
             tags.append("readyerr")
         elif r == "notready":
             tags.append("notready")
+    if "inner-recovery" in tags and "retried" in tags and "readiness-pending" in tags:
+        tags.append("recovery-pending-under-retry")
     return tags
 
 
@@ -586,7 +751,10 @@ ALL_TR = (["layer-" + l for l in VARIANTS] + ["mw-" + l for l in THIRTEEN] +
           ["inner-strict", "inner-climit", "inner-buffer", "depth-1", "depth-2", "depth-3", "depth-4", "depth-5",
            "documented-stack", "listener-panic", "all-listeners-panic", "readiness-pending", "readiness-error",
            "readiness-error-in-attempt", "readyerr", "notready", "concurrent-inner-calls", "held-instance", "multi-poll",
-           "dropped", "inner-dropped", "retried", "hedged", "ok-transparent", "err-transparent", "ok-triggered", "err-triggered", "probe"])
+           "dropped", "inner-dropped", "retried", "hedged", "ok-transparent", "err-transparent", "ok-triggered", "err-triggered", "probe",
+           "inner-recovery", "inner-recovery-all-instances", "recovery-pending-under-retry", "late-first-poll", "late-first-poll-timelimiter",
+           "listener-probe", "probe-ok", "probe-err"] +
+          ["listener-probe-over-" + l for l in ("bulkhead", "circuit", "timelimiter", "retry", "fallback", "hedge")])
 
 LEVEL_NOTE = ("Trusted: Lean kernel; the transcription of each layer's call path as a transducer between boundary event streams in "
               "TR.Model.Stack (validated only by the sampled correspondence check); tower's BoxCloneService / MapErr adapters and the Tap "
@@ -621,13 +789,17 @@ SPECS = {
         "nontrivial": nontrivial,
         "all_transitions": ALL_TR,
         "model_modules": ["TR.Model.Stack", "TR.Model.Listeners", "TR.Lemmas.Stack"],
-        "lean_files": ["TR.Model.Stack", "TR.Model.Listeners", "TR.Lemmas.Stack"],
+        "lean_files": ["TR.Model.Stack", "TR.Model.Listeners", "TR.Lemmas.Stack", "TR.Model.TimeLimiter", "TR.Lemmas.TimeLimiter"],
         "sizes": (600, 20000),
         "rule": "each of the thirteen middleware alone (plus timelimiter without cancellation, single-attempt / firing / parallel hedge), the "
                 "stacks of composition.rs and tower_primer.rs, and random stacks of 2-4 layers, over a strict contract-checking inner service "
                 "(readiness scripts with pending and failing polls), tower ConcurrencyLimit and tower Buffer; 1-5 requests with distinct tags, "
                 "ok / non-retried / retried error outcomes, latencies 0/5/20 ms, callers on clones or on one held instance with 1-3 readiness "
-                "polls, listener panic masks 0..7 checked against a twin stack without panics; distinct = distinct implementation log; "
+                "polls, listener panic masks 0..7 checked against a twin stack without panics; inner instances that stay Pending for 3-30 ms of "
+                "virtual time after every call (aimed at retry / reconnect attempts, 5 ms steps); call futures first polled an hour after call() "
+                "(sequential requests, time limiter in both modes forced into half of these stacks); a completion listener of the outermost layer "
+                "(bulkhead incl. one-slot reject / bounded-wait, circuit, time limiter, retry, fallback, hedge) that itself drives 1-3 probe calls "
+                "through a clone of the stack, compared with the same probes made right after the step in the twin; distinct = distinct implementation log; "
                 "non-trivial = a stack of >= 2 layers or a retry/hedge/readiness-pending/readiness-error/held-instance/listener-panic event",
         "trusted": ["transcription of the layers' call paths in TR.Model.Stack (sampled by the correspondence check)",
                     "harness: Tap at every boundary, strict inner service, twin stack, clock_gettime interposition, manual poller", "python monitors"],
@@ -639,9 +811,14 @@ SPECS = {
                       "readiness poll) is a guarded transition system; for ANY number of layers and ANY interleaving of boundary events it can perform, "
                       "if the caller honours the readiness contract then every boundary does (induction over boundaries), and every inner call carries the "
                       "tag of a received outer call; emit runs every listener exactly once in order and no panic escapes, so outcomes do not depend on "
-                      "listeners. The model is tied to the code by replaying the boundary events the real stacks produce (Tap at every boundary) through it: "
+                      "listeners. {not_ready_polls_never_license,retry_after_pending_poll_rejected}: poll_ready answers other than Ready(Ok) - Pending for any "
+                      "stretch, errors - never license a call; {listener_sees_final_state,release_after_emit_violates}: on a completion path that releases what "
+                      "the finished call holds before it emits, a call made from inside / during a listener is admitted iff the same call right after the step is; "
+                      "timelimiter_untriggered_never_times_out: a wrapped call faster than its timeout is never answered Timeout, however late the future is "
+                      "first polled (timer counts from the first poll, both modes). The model is tied to the code by replaying the boundary events the real stacks produce (Tap at every boundary) through it: "
                       "an event the idiom cannot perform is a disagreement. Exactly-once forwarding, result wrappers, readiness errors surfacing and the "
-                      "twin-stack listener comparison are decided by implementation-side monitors (not theorems).",
+                      "twin-stack listener comparison (answers, listener counts, and the probe calls made by a re-entrant completion listener vs. right "
+                      "after the step) are decided by implementation-side monitors (not theorems).",
         "level_note": LEVEL_NOTE,
     }
 }
